@@ -7,9 +7,13 @@ EXTENDS FeelEval, TLC, Json, IOUtils
 
 Recs == ndJsonDeserialize(IOEnv.TRACE)
 
+\* translation invariance (Gen_C01!ShiftExprs): `shifts` holds the values observed with lo and hi moved by a large amount
+ShiftLaw(r) == "shifts" \notin DOMAIN r \/ \A k \in 1..Len(r.shifts) : r.shifts[k].obs = r.obs
+
 Verdict(r) ==
   IF r.obs.k = "panic" THEN "the evaluator panicked"
   ELSE IF r.obs # r.obs2 THEN "the result depends on bindings the expression does not mention"
+  ELSE IF ~ShiftLaw(r) THEN "the value changes when both ends of the range are moved by the same amount"
   ELSE LET want == Eval(r.tree, <<r.scope>>) IN
        IF IsU(want) THEN "unspec"
        ELSE IF Match(want, r.obs) THEN "ok" ELSE "the value differs from the one the FEEL semantics assigns"
